@@ -795,13 +795,23 @@ def check_climnet(ctx, ES, k):
             "lag": lag, "symmetrization": sym, "window_type": win}
     sig = f"EventSeriesClimateNetwork:{method}"
 
+    # the documented option p_value: strengths that are not significant
+    # (Monte-Carlo test on a few shuffle surrogates) are zero in the
+    # similarity matrix; the analysis matrix of the object stays what it is
+    pkw = {}
+    if r.random() < 0.3 and taumax != 0:
+        pkw = {"p_value": float(r.choice([0.05, 0.5, 1.0])), "n_surr": 4}
+        ctx.count("climnet_with_p_value")
+
     def build():
         g = GeoGrid(np.arange(float(T)), np.linspace(-40, 40, N),
                     np.linspace(0, 90, N), silence_level=3)
         d = ClimateData(observable=M.copy(), grid=g, time_cycle=1,
                         silence_level=3)
+        np.random.seed(int(k))
         return ESCN(d, method=method, taumax=taumax, lag=lag,
-                    symmetrization=sym, window_type=win, silence_level=3)
+                    symmetrization=sym, window_type=win, silence_level=3,
+                    **pkw)
     with warnings.catch_warnings():
         warnings.simplefilter("ignore")
         ok, net = ctx.call(build)
@@ -827,6 +837,31 @@ def check_climnet(ctx, ES, k):
         return
     R = np.abs(np.asarray(R, dtype=float))
     S = np.asarray(S, dtype=float)
+    if pkw:
+        # the object's own analysis matrix is not the thinned one
+        with warnings.catch_warnings():
+            warnings.simplefilter("ignore")
+            ok3, E3 = ctx.call(net.event_series_analysis, method=method,
+                               symmetrization=sym, window_type=win)
+        E3 = np.abs(np.asarray(E3, dtype=float)) if ok3 else None
+        if not ok3 or E3.shape != R.shape or not bool(np.all(
+                (np.isnan(E3) & np.isnan(R)) | (np.abs(E3 - R) <= 1e-9))):
+            ctx.violation(f"{sig}:p_value:analysis-matrix-of-the-object-"
+                          "differs", {**case, **pkw}, cid)
+        # every similarity entry is the strength or zero
+        same = S.shape == R.shape and bool(np.all(
+            (np.isnan(S) & np.isnan(R)) | (np.abs(S - R) <= 1e-6)
+            | (S == 0)))
+        if pkw["p_value"] == 1.0:
+            # (nothing is "not significant" at p = 1)
+            same = same and bool(np.all(
+                (np.isnan(S) & np.isnan(R)) | (np.abs(S - R) <= 1e-6)))
+        if not same:
+            ctx.violation(f"{sig}:p_value:similarity-neither-strength-nor-"
+                          "zero", {**case, **pkw, "lib": S,
+                                   "abs_event_series_analysis": R}, cid)
+        ctx.count("climnet_compared")
+        return
     same = S.shape == R.shape and bool(np.all(
         (np.isnan(S) & np.isnan(R)) | (np.abs(S - R) <= 1e-6)))
     if not same:
